@@ -44,7 +44,7 @@ def run(c):
     b = c.go_build("c05corr")
     if not b:
         return
-    n = 330 if c.tier == "quick" else 6000
+    n = 600 if c.tier == "quick" else 8000
     argv = [b, "-out", c.build, "-seed", str(c.seed), "-n", str(n), "-tier", c.tier]
     if c.replay:
         argv += ["-replay", c.replay]
